@@ -655,20 +655,6 @@ fn oracle(
     fails
 }
 
-/// Mirror of `is_single_line_comment` in src/generator/token_based.rs, to delimit finding F27: a line
-/// comment `--[` + up to three bytes + `[` (or `--[` `=`* … `[`) is taken for a long comment, so the
-/// generator does not break the line before what follows it.
-fn generator_takes_for_long(comment: &[u8]) -> bool {
-    let s = String::from_utf8_lossy(comment);
-    if !s.starts_with("--[") {
-        return false;
-    }
-    match s.chars().skip(3).enumerate().find(|(_, c)| *c == '[') {
-        Some((i, _)) => s.get(3..i).map(|sub| sub.chars().all(|c| c == '=')).unwrap_or(true),
-        None => false,
-    }
-}
-
 fn is_long_comment(comment: &[u8]) -> bool {
     // `--[` `=`* `[`
     if !comment.starts_with(b"--[") {
@@ -679,21 +665,10 @@ fn is_long_comment(comment: &[u8]) -> bool {
     rest.get(k) == Some(&b'[')
 }
 
-/// a line comment the generator misclassifies (F27)
-fn f27_trigger(l: &Lexed) -> bool {
-    l.coms.iter().any(|c| !is_long_comment(&c.0) && generator_takes_for_long(&c.0))
-}
-
 /// F29: a `-` operator directly followed (whitespace aside) by a comment: without the whitespace the
 /// generator writes `-` `--…` = `---…`, one comment.
 fn f29_trigger(l: &Lexed) -> bool {
     l.order.windows(2).any(|w| !w[0].0 && w[1].0 && l.toks[w[0].1].bytes == b"-")
-}
-
-/// F30: a comment directly followed by a `...` token (a variadic type pack is written without
-/// breaking the line after a line comment)
-fn f30_trigger(l: &Lexed) -> bool {
-    l.order.windows(2).any(|w| w[0].0 && !w[1].0 && l.toks[w[1].1].bytes == b"..." && !is_long_comment(&l.coms[w[0].1].0))
 }
 
 /// The separators between consecutive items of `out` (items as the reference lexer found them):
@@ -878,14 +853,6 @@ fn judge(ctx: &mut Ctx, case: &Case, witness_mode: bool) -> Outcome {
                         continue;
                     }
                 }
-                // F27 at the end of a file: the last comment of the file, or the appended comment itself, is a
-                // line comment the generator takes for a long one; what is written next is glued to it
-                if *loc == Loc::End
-                    && (f27_trigger(&lbase) || (!is_long_comment(&ct) && generator_takes_for_long(&ct)))
-                {
-                    o.count("oracle_fails_in_F27_region");
-                    continue;
-                }
                 if witness_mode {
                     continue;
                 }
@@ -990,26 +957,21 @@ fn judge(ctx: &mut Ctx, case: &Case, witness_mode: bool) -> Outcome {
             let expected = expected_survivors(rule, &lbase.comment_bytes());
             let fails = oracle(ctx, case, &base, &out, Some(&expected));
             o.oracle_fails = fails.iter().map(|f| f.0.clone()).collect();
-            // F26: in a CRLF file darklua matches `except` against the comment text *with* the CR
+            // (F26 is fixed: `except` patterns see the comment text without the CR of a CRLF line end;
+            //  the cases where the CR would change the verdict are counted to show they are exercised)
             let with_cr: Vec<Vec<u8>> = lbase.comment_bytes().iter().map(|c| [c.as_slice(), b"\r"].concat()).collect();
             let crlf_sensitive = src.contains("\r\n")
                 && expected_survivors(rule, &with_cr).iter().map(|c| c[..c.len() - 1].to_vec()).collect::<Vec<_>>() != expected;
-            if crlf_sensitive {
-                o.hist("remove_region", "CRLF file and a pattern that sees the CR (F26)");
-            } else {
-                o.hist("remove_region", "inside");
-            }
+            o.hist("remove_crlf", if crlf_sensitive { "CRLF file and a pattern whose verdict would change with the CR" } else { "other" });
             let spaces = rule.has_spaces();
-            let f27 = spaces && (f27_trigger(&lbase) || f29_trigger(&lbase) || f30_trigger(&lbase));
+            // (F27 is fixed: line comments such as `--[abc[ x` are no longer excused)
+            // (F30 is fixed too: a line comment directly before `...` is no longer excused)
+            let f27 = spaces && f29_trigger(&lbase);
             if spaces {
                 o.hist(
                     "remove_spaces_region",
-                    if f27_trigger(&lbase) {
-                        "a line comment the generator takes for a long one (F27)"
-                    } else if f29_trigger(&lbase) {
+                    if f29_trigger(&lbase) {
                         "`-` directly before a comment (F29)"
-                    } else if f30_trigger(&lbase) {
-                        "line comment directly before `...` (F30)"
                     } else {
                         "inside"
                     },
@@ -1018,11 +980,7 @@ fn judge(ctx: &mut Ctx, case: &Case, witness_mode: bool) -> Outcome {
             if !witness_mode {
                 for (name, what) in &fails {
                     if f27 {
-                        o.count("oracle_fails_in_F27_F29_F30_region");
-                        continue;
-                    }
-                    if crlf_sensitive && name == "O3" {
-                        o.count("oracle_fails_in_F26_region");
+                        o.count("oracle_fails_in_F29_region");
                         continue;
                     }
                     o.violate("oracle", &format!("remove_{}", name), what.clone(), case, true);
@@ -1398,12 +1356,13 @@ fn gen_rule(rng: &mut Rng, crlf: bool) -> Rule {
         0 => Rule::Spaces,
         1 => Rule::Comments { lits: vec![], regexes: vec![] },
         2 | 3 | 4 => {
-            let pool: Vec<Lit> = lit_pool().into_iter().filter(|l| !(crlf && l.1)).collect();
+            let _ = crlf;
+            let pool: Vec<Lit> = lit_pool();
             let n = 1 + rng.below(3);
             Rule::Comments { lits: (0..n).map(|_| rng.pick(&pool).clone()).collect(), regexes: vec![] }
         }
         _ => {
-            let pool: Vec<&str> = REGEX_POOL.iter().cloned().filter(|r| !(crlf && r.ends_with('$'))).collect();
+            let pool: Vec<&str> = REGEX_POOL.to_vec();
             let n = 1 + rng.below(2);
             Rule::Comments { lits: vec![], regexes: (0..n).map(|_| rng.pick(&pool).to_string()).collect() }
         }
